@@ -145,10 +145,20 @@ def handler_chain(tree):
         if s is not ifs_stmt and i > min(seen.values()) and _assigned_names(s) & set(names):
             raise Reject('another if statement rebinds a handler variable (line %d)' % s.lineno)
     # every handler variable is created before the if
+    classes = {}
     for n in names:
         created = [i for i, s in enumerate(body[:if_idx]) if n in _assigned_names(s)]
         if not created:
             raise Reject('handler variable %s is not bound before `if username:`' % n)
+        st = body[created[-1]]
+        if not (isinstance(st, ast.Assign) and len(st.targets) == 1 and _is_name(st.targets[0], n)
+                and isinstance(st.value, ast.Call)):
+            raise Reject('handler variable %s is not created by a constructor call (line %d)' % (n, st.lineno))
+        f = st.value.func
+        classes[n] = f.id if isinstance(f, ast.Name) else f.attr if isinstance(f, ast.Attribute) else None
+        if classes[n] is None:
+            raise Reject('constructor of %s not recognised' % n)
+    handler_chain.classes = classes          # variable -> class of the handler it holds (wrapper i wraps handler i)
     return names, wrapped
 
 
@@ -285,12 +295,31 @@ def lower_alternatives(word):
     return [table[ch] for ch in word]
 
 
+def catch_all(names, classes):
+    """The handler consulted last must claim every request (so that, all handlers
+    being wrapped, every dispatched request meets an authentication wrapper):
+    it is a medusa default_handler whose match() is `return <true constant>`."""
+    tree = _src('supervisor/medusa/default_handler.py')
+    cls = _find(tree.body, ast.ClassDef, 'default_handler')
+    fn = _find(cls.body, ast.FunctionDef, 'match')
+    stmts = [st for st in fn.body if not (isinstance(st, ast.Expr) and isinstance(st.value, ast.Constant))]
+    ok = (len(stmts) == 1 and isinstance(stmts[0], ast.Return) and isinstance(stmts[0].value, ast.Constant)
+          and bool(stmts[0].value.value) is True)
+    if not ok:
+        raise Reject('default_handler.match() is no longer `return 1`: the catch-all handler may decline requests, '
+                     'which then fall through to an unauthenticated 404')
+    last = list(reversed(names))[-1]
+    if classes[last] != 'default_handler':
+        raise Reject('the handler consulted last (%s) is not the medusa default_handler' % last)
+
+
 def generate():
     http_tree = _src('supervisor/http.py')
     medusa_tree = _src('supervisor/medusa/http_server.py')
     auth_tree = _src('supervisor/medusa/auth_handler.py')
     names, wrapped = handler_chain(http_tree)
     install_order(http_tree, medusa_tree)
+    catch_all(names, handler_chain.classes)
     wrapper_class(http_tree)
     prefix, skip = authorizer_constants(http_tree)
     if skip != len(prefix):
@@ -318,6 +347,9 @@ def generate():
     lines.append('Definition sha_prefix : list Z := %s. (* %r *)' % (vlib.bytes_lit(prefix.encode()), prefix))
     lines.append('Definition sha_skip : Z := %d.' % skip)
     lines.append('')
+    lines.append('(* the handler consulted last is a medusa default_handler whose match() is `return 1` *)')
+    lines.append('Definition catch_all_last : bool := true.')
+    lines.append('')
     vlib.write_if_changed(os.path.join(vlib.COQ, 'C17', 'Gen_http.v'), '\n'.join(lines))
     bare = [n for n in dispatch if n not in wrapped]
     if bare:
@@ -326,7 +358,8 @@ def generate():
     extra = [n for n in wrapped if n not in names]
     if extra:
         raise Reject('wrapped but never installed: %r' % extra)
-    return {'dispatch': dispatch, 'wrapped': wrapped, 'literal': lit, 'scheme': word, 'prefix': prefix}
+    return {'dispatch': dispatch, 'wrapped': wrapped, 'literal': lit, 'scheme': word, 'prefix': prefix,
+            'classes': [handler_chain.classes[n] for n in dispatch]}
 
 
 if __name__ == '__main__':
